@@ -315,21 +315,40 @@ def finish(pid, mod, tier, seed, cov, violations, wall, confirm=True):
     for f, n in sorted(known_hits.items()):
         lines.append(f'KNOWN-FINDING: property={pid} {f}: {known[f]["title"]} ({n} cases)')
     reported = 0
+    unconfirmed = []
     for key, vs in list(new.items())[:12]:
-        v = vs[0]
-        p = write_replay(pid, v, mod)
-        if confirm:
+        chosen = None
+        tried = 0
+        for v in vs[:6]:
+            p = write_replay(pid, v, mod)
+            tried += 1
+            if not confirm:
+                chosen = (v, p)
+                break
             ok, out = confirm_fresh(pid, p)
-            if not ok:
-                raise HarnessError(
-                    f'violation {key} did not reproduce in a fresh process for {p}:\n{out}'
-                )
+            if ok:
+                chosen = (v, p)
+                break
+            last_out = out
+        if chosen is None:
+            # seen during the run but none of the first cases of this group fails again from its replay
+            # file: never reported as a violation; a verdict needs at least one confirmed group
+            unconfirmed.append({'kind': key[1], 'finding_signature': key[0] or None, 'cases': len(vs), 'tried': tried})
+            continue
+        v, p = chosen
         lines.append(f'VIOLATION property={pid} replay={p}')
         lines.append(f'  kind={v["kind"]} cases={len(vs)} finding-signature={v.get("finding")} detail={v["detail"][:400]}')
         reported += 1
         rc = 1
+    if unconfirmed and rc == 0:
+        raise HarnessError(
+            f'violations {[(u["kind"], u["cases"]) for u in unconfirmed]} did not reproduce from their replay files in a fresh process:\n{last_out}'
+        )
+    for u in unconfirmed:
+        lines.append(f'UNCONFIRMED kind={u["kind"]} cases={u["cases"]} (seen in the run, not reproduced from {u["tried"]} replay files; not part of the verdict)')
     cov = dict(cov)
     cov['known_findings_matched'] = dict(known_hits)
+    cov['unconfirmed_groups'] = unconfirmed
     cov['violation_groups'] = [
         {'kind': k[1], 'finding_signature': k[0] or None, 'cases': len(vs)} for k, vs in new.items()
     ]
